@@ -179,11 +179,27 @@ func VerifC12Copy(size int) {
 	for i := range a {
 		a[i] = verifNondetU8("manifest-a")
 	}
-	vcFS[sp] = &vcFile{data: append([]byte(nil), a...)}
+	srcThere := verifChoice(2) == 1
+	if srcThere {
+		vcFS[sp] = &vcFile{data: append([]byte(nil), a...)}
+	}
+	var bOld *vcFile
 	if verifChoice(2) == 1 {
-		vcFS[dp] = &vcFile{data: []byte{verifNondetU8("manifest-b")}}
+		bOld = &vcFile{data: []byte{verifNondetU8("manifest-b")}}
+		vcFS[dp] = bOld
 	}
 	err := CopyModel(src, dst)
+	if !srcThere {
+		// copying a model that does not exist fails and leaves an existing destination model alone
+		verifReach("source-missing")
+		verifAssert(err != nil, "copy-of-a-missing-model-fails")
+		if bOld != nil {
+			verifAssert(vcFS[dp] == bOld && len(bOld.data) == 1, "failed-copy-leaves-the-destination-model-untouched")
+		} else {
+			verifAssert(vcFS[dp] == nil || len(vcFS[dp].data) > 0, "failed-copy-leaves-no-empty-manifest")
+		}
+		return
+	}
 	verifReach("copied")
 	verifAssert(err == nil, "copy-succeeds")
 	d := vcFS[dp]
